@@ -394,7 +394,7 @@ int main(int argc, char** argv) {
         return 0;
     }
     for (auto& c : load_corpus(argc > 4 ? argv[4] : NULL)) run_case(out, g, c.first, c.second);
-    long N = g_thorough ? 15000 : 300;
+    long N = g_thorough ? 12000 : 300;
     for (long i = 0; i < N; i++) gen_case(out, g);
     out.close();
     return 0;
